@@ -429,4 +429,162 @@ theorem cylinder_normals_outward_aux {S : Nat} {r H : ℝ} (hr : 0 < r) (hH : 0 
       sin_dang_last hS]
     exact ⟨k2, k2, k2⟩
 
+/-! ### hemisphere over ℝ -/
+
+/-- the centre used for the hemisphere: on the axis, a quarter of the diameter above the cap -/
+noncomputable def hemiCtr (r : ℝ) : V3 ℝ := ⟨0, r / 2, 0⟩
+
+/-- polar angle (from +y) of hemisphere ring `ρ ≥ 1`: `ugh` of hemisphere.go:37 with `i = ρ - 1` -/
+noncomputable def psiOf (R ρ : Nat) : ℝ := (-π * ((ρ - 1 : ℕ) : ℝ)) / (R : ℝ) / 2 + π / 2
+
+noncomputable def hemiPosL (r : ℝ) (R C : Nat) (p : LP) : V3 ℝ :=
+  if p.1 = 0 then ⟨0, 0, 0⟩ else if p.1 = R then ⟨0, r, 0⟩ else Pang r (psiOf R p.1) (thetaOf C p.2)
+
+theorem hemispherePos_enc {R C : Nat} (r : ℝ) (hR : 2 ≤ R) (hC : 3 ≤ C) (p : LP) (hv : UvValid R C p) :
+    hemispherePos r R C (uvEnc R C p) = hemiPosL r R C p := by
+  have hd := uvDec_uvEnc hR hC p hv
+  rcases hv with rfl | rfl | ⟨h1, h2, h3⟩
+  · simp [uvEnc_top, hemispherePos, hemiPosL, V3.New]
+  · rw [uvEnc_bot C hR]
+    have : uvBottom R C ≠ 0 := by simp [uvBottom]
+    have hR0 : R ≠ 0 := by omega
+    simp [hemispherePos, this, hemiPosL, V3.New, hR0]
+  · obtain ⟨ρ, c⟩ := p
+    simp only at h1 h2 h3
+    have n0 : uvEnc R C (ρ, c) ≠ 0 := by rw [uvEnc_grid C c h1 h2]; omega
+    have hle : (ρ - 1 + 1) * C ≤ (R - 1) * C := Nat.mul_le_mul_right C (by omega)
+    rw [Nat.succ_mul] at hle
+    have n1 : uvEnc R C (ρ, c) ≠ uvBottom R C := by rw [uvEnc_grid C c h1 h2]; unfold uvBottom; omega
+    simp only [uvDec, n0, n1, if_false, Prod.mk.injEq] at hd
+    obtain ⟨hd1, hd2⟩ := hd
+    have hd1' : (uvEnc R C (ρ, c) - 1) / C = ρ - 1 := by omega
+    have r0 : ρ ≠ 0 := by omega
+    have r1 : ρ ≠ R := by omega
+    simp only [hemispherePos, n0, n1, if_false, hd1', hd2, hemiPosL, r0, r1, Pang, psiOf, thetaOf, n2a_real,
+      RS.sin_eq, RS.cos_eq, RS.pi_eq]
+    push_cast
+    have e : 2 * π * ((c : ℝ) / (C : ℝ)) = 2 * π * (c : ℝ) / (C : ℝ) := by ring
+    rw [e]
+
+/-- shifted determinant of the dome triangle `(P(φ1,θ1), P(φ2,θ2), P(φ1,θ2))` -/
+theorem detA'_shift (r t φ1 φ2 θ1 θ2 : ℝ) :
+    det3 ((Pang r φ1 θ1).Sub ⟨0, t, 0⟩) ((Pang r φ2 θ2).Sub ⟨0, t, 0⟩) ((Pang r φ1 θ2).Sub ⟨0, t, 0⟩) =
+      r ^ 2 * sin φ1 * sin (θ2 - θ1) * (r * sin (φ1 - φ2) - t * (sin φ1 - sin φ2)) := by
+  simp only [det3, Pang, V3.Dot, V3.Cross, V3.New, V3.Scale, V3.Sub, sin_sub]
+  ring
+
+/-- shifted determinant of the dome triangle `(P(φ1,θ1), P(φ2,θ1), P(φ2,θ2))` -/
+theorem detB'_shift (r t φ1 φ2 θ1 θ2 : ℝ) :
+    det3 ((Pang r φ1 θ1).Sub ⟨0, t, 0⟩) ((Pang r φ2 θ1).Sub ⟨0, t, 0⟩) ((Pang r φ2 θ2).Sub ⟨0, t, 0⟩) =
+      r ^ 2 * sin φ2 * sin (θ2 - θ1) * (r * sin (φ1 - φ2) - t * (sin φ1 - sin φ2)) := by
+  simp only [det3, Pang, V3.Dot, V3.Cross, V3.New, V3.Scale, V3.Sub, sin_sub]
+  ring
+
+/-- shifted determinant of a cap triangle `(origin, P(π/2,θ1), P(π/2,θ2))` -/
+theorem detCap_shift (r t θ1 θ2 : ℝ) :
+    det3 ((⟨0, 0, 0⟩ : V3 ℝ).Sub ⟨0, t, 0⟩) ((Pang r (π / 2) θ1).Sub ⟨0, t, 0⟩) ((Pang r (π / 2) θ2).Sub ⟨0, t, 0⟩) =
+      t * r ^ 2 * sin (θ2 - θ1) := by
+  simp only [det3, Pang, V3.Dot, V3.Cross, V3.New, V3.Scale, V3.Sub, sin_sub, sin_pi_div_two, cos_pi_div_two]
+  ring
+theorem psiOf_step {R ρ : Nat} (hR : 2 ≤ R) (h1 : 1 ≤ ρ) : psiOf R ρ = psiOf R (ρ + 1) + π / (2 * R) := by
+  have hR0 : (R : ℝ) ≠ 0 := by positivity
+  have e : ((ρ + 1 - 1 : ℕ) : ℝ) = ((ρ - 1 : ℕ) : ℝ) + 1 := by
+    rw [show ρ + 1 - 1 = (ρ - 1) + 1 by omega]; push_cast; ring
+  simp only [psiOf, e]; field_simp; ring
+
+theorem psiOf_one (R : Nat) : psiOf R 1 = π / 2 := by simp [psiOf]
+
+theorem psiOf_pos_le {R ρ : Nat} (h1 : 1 ≤ ρ) (h2 : ρ < R) : 0 < psiOf R ρ ∧ psiOf R ρ ≤ π / 2 := by
+  have hR : (0 : ℝ) < R := by exact_mod_cast (by omega : 0 < R)
+  have hρ : ((ρ - 1 : ℕ) : ℝ) + 1 ≤ R := by
+    have : ρ - 1 + 1 ≤ R := by omega
+    exact_mod_cast this
+  have hρ0 : (0 : ℝ) ≤ ((ρ - 1 : ℕ) : ℝ) := Nat.cast_nonneg _
+  have e : psiOf R ρ = π / 2 * (1 - ((ρ - 1 : ℕ) : ℝ) / R) := by simp only [psiOf]; field_simp; ring
+  have hq : ((ρ - 1 : ℕ) : ℝ) / R < 1 := by rw [div_lt_one hR]; linarith
+  have hq0 : 0 ≤ ((ρ - 1 : ℕ) : ℝ) / R := by positivity
+  rw [e]
+  constructor
+  · have : 0 < π / 2 := by positivity
+    nlinarith
+  · have : 0 < π / 2 := by positivity
+    nlinarith
+
+theorem sin_psi_pos {R ρ : Nat} (h1 : 1 ≤ ρ) (h2 : ρ < R) : 0 < sin (psiOf R ρ) := by
+  obtain ⟨h, h'⟩ := psiOf_pos_le h1 h2
+  exact sin_pos_of_pos_of_lt_pi h (by linarith [pi_pos])
+
+theorem sin_hdelta_pos {R : Nat} (hR : 2 ≤ R) : 0 < sin (π / (2 * R)) := by
+  have hR' : (2 : ℝ) ≤ R := by exact_mod_cast hR
+  apply sin_pos_of_pos_of_lt_pi
+  · positivity
+  · rw [div_lt_iff₀ (by positivity)]; nlinarith [pi_pos]
+
+/-- the shifted-centre factor is positive: `r·sin δ − (r/2)(sin(φ+δ) − sin φ) ≥ (r/2)·sin δ > 0` -/
+theorem shift_factor_pos {r φ δ : ℝ} (hr : 0 < r) (h0 : 0 ≤ sin φ) (hδ : 0 < sin δ) :
+    0 < r * sin (φ + δ - φ) - r / 2 * (sin (φ + δ) - sin φ) := by
+  have e : φ + δ - φ = δ := by ring
+  rw [e, sin_add]
+  have h1 : 0 ≤ sin φ * (1 - cos δ) := mul_nonneg h0 (by linarith [cos_le_one δ])
+  have h2 : 0 ≤ sin δ * (1 - cos φ) := mul_nonneg hδ.le (by linarith [cos_le_one φ])
+  have h3 : sin φ * cos δ + cos φ * sin δ - sin φ ≤ sin δ := by nlinarith
+  have h4 : 0 < r * sin δ := by positivity
+  nlinarith
+
+theorem hemisphere_outward_aux {R C : Nat} {r : ℝ} (hr : 0 < r) (hR : 2 ≤ R) (hC : 3 ≤ C) :
+    OutwardAt (hemispherePos r R C) (hemiCtr r) (hemisphereTris R C) := by
+  rw [hemisphereTris_eq_flip, uvSphereTris_eq_map hR]
+  intro t ht
+  obtain ⟨t1, ht1, rfl⟩ := List.mem_map.1 ht
+  obtain ⟨t', ht', rfl⟩ := List.mem_map.1 ht1
+  have hv : UvValid R C t'.1 ∧ UvValid R C t'.2.1 ∧ UvValid R C t'.2.2 := by
+    have he : ∀ e ∈ triEdges t', e ∈ edges (sphereL R C) := fun e he => List.mem_flatMap.2 ⟨t', ht', he⟩
+    have h1 := sphereL_valid hR hC _ (he (t'.1, t'.2.1) (by simp [triEdges]))
+    have h2 := sphereL_valid hR hC _ (he (t'.2.1, t'.2.2) (by simp [triEdges]))
+    exact ⟨h1.1, h1.2, h2.2⟩
+  simp only [flipT, tm, n2a_real, Nat.cast_zero, hemispherePos_enc r hR hC _ hv.1, hemispherePos_enc r hR hC _ hv.2.1,
+    hemispherePos_enc r hR hC _ hv.2.2, hemiCtr]
+  have hth := sin_dtheta_pos hC
+  have hr2 : 0 < r ^ 2 := by positivity
+  have hR1 : (1 : ℕ) ≠ R := by omega
+  have hR0 : R ≠ 0 := by omega
+  rcases mem_sphereL.1 ht' with ⟨i, hi, rfl | rfl⟩ | ⟨j, hj, i, hi, rfl | rfl⟩
+  · -- cap fan
+    simp only [hemiPosL, if_true, one_ne_zero, if_false, hR1, psiOf_one]
+    rw [detCap_shift, sin_dtheta hC hi]
+    positivity
+  · -- pole fan
+    have a0 : R - 1 ≠ 0 := by omega
+    have a1 : R - 1 ≠ R := by omega
+    simp only [hemiPosL, hR0, if_true, if_false, a0, a1]
+    have e : (⟨0, r, 0⟩ : V3 ℝ) = Pang r 0 (thetaOf C ((i + 1) % C)) := by simp [Pang, V3.New, V3.Scale]
+    rw [e, det3_rot, det3_rot, detA'_shift, sin_dtheta hC hi]
+    have hs := @sin_psi_pos R (R - 1) (by omega) (by omega)
+    simp only [sub_zero, sin_zero]
+    have : 0 < r * sin (psiOf R (R - 1)) - r / 2 * sin (psiOf R (R - 1)) := by nlinarith
+    positivity
+  · -- strip, first triangle
+    have a0 : j + 1 ≠ 0 := by omega
+    have a1 : j + 1 ≠ R := by omega
+    have a2 : j + 2 ≠ 0 := by omega
+    have a3 : j + 2 ≠ R := by omega
+    simp only [hemiPosL, if_false, a0, a1, a2, a3]
+    rw [detA'_shift, sin_dtheta hC hi, @psiOf_step R (j + 1) hR (by omega)]
+    have hs := @sin_psi_pos R (j + 2) (by omega) (by omega)
+    have hf := shift_factor_pos hr hs.le (sin_hdelta_pos hR)
+    have hs1 : 0 < sin (psiOf R (j + 1 + 1) + π / (2 * R)) := by
+      rw [← @psiOf_step R (j + 1) hR (by omega)]; exact sin_psi_pos (by omega) (by omega)
+    positivity
+  · -- strip, second triangle
+    have a0 : j + 1 ≠ 0 := by omega
+    have a1 : j + 1 ≠ R := by omega
+    have a2 : j + 2 ≠ 0 := by omega
+    have a3 : j + 2 ≠ R := by omega
+    simp only [hemiPosL, if_false, a0, a1, a2, a3]
+    rw [detB'_shift, sin_dtheta hC hi]
+    have hs := @sin_psi_pos R (j + 2) (by omega) (by omega)
+    have hf := shift_factor_pos hr hs.le (sin_hdelta_pos hR)
+    rw [← @psiOf_step R (j + 1) hR (by omega)] at hf
+    positivity
+
 end PolyVerif.Solids
